@@ -51,6 +51,12 @@ class C04(HistoryProp):
         for _ in range(1 + src.n(3)):
             preds, clauses = gen.gen_program(src, CFG)
             scripts.append((preds, clauses))
+        if src.n(3) == 0:
+            # compiled FACTS with anonymous variables inside structures: every use of such a fact has variables of its own,
+            # also when two uses are suspended at the same time
+            scripts.append(([('p', 1), ('q', 1)],
+                            [(('f', 'p', (('f', 'f', (('v', '_901'),)),)), ('true',)), (('f', 'p', (('f', '.', (('v', '_902'), ('v', '_903'))),)), ('true',)),
+                             (('f', 'q', (('f', 'f', (('v', '_904'),)),)), ('true',)), (('f', 'p', (('f', 'f', (('a', 'c'),)),)), ('true',))]))
         open_q = []       # (qid, engine)
         qid = 0
         known = {e: [] for e in engines}      # predicates known per engine (for queries)
